@@ -2199,6 +2199,9 @@ func (c *fctx) checkRoot(lhs ast.Expr) {
 		o = c.info.Defs[id]
 	}
 	for _, p := range c.f.params {
+		if _, bare := ast.Unparen(lhs).(*ast.Ident); bare && types.Object(p.v) == o && p.g.k == kBytes && !p.g.ptr && p != c.f.mut {
+			return // rebinding of a []byte parameter (append style; block1 checks the right-hand side)
+		}
 		if types.Object(p.v) == o && (p.g.ptr || p.g.k == kBytes) && p != c.f.mut {
 			c.t.failf(lhs.Pos(), "internal: write through %s not found by the analysis", id.Name)
 		}
